@@ -7,6 +7,7 @@ package main
 import (
 	"bytes"
 	"crypto/rand"
+	"crypto/sha256"
 	"encoding/gob"
 	"fmt"
 	mrand "math/rand"
@@ -273,6 +274,40 @@ func runPayload(out *TraceWriter, seed int64, full bool) {
 	bad := append([]byte(nil), sig...)
 	bad[10] ^= 1
 	w(pRow{K: "sig", Obj: "block", Field: "flipped-bit", Ok: bb.Verify(p1, bad) == nil})
+	// ... at the level of the key pair itself: data of every length class (shorter than, exactly, longer than one SHA-256 block
+	// output), and against data RELATED to the signed data (its digest, its double digest, an extension, a truncation, a
+	// neighbour of the same length): a signature must verify for the signed bytes only
+	kp0, pp := crypto.Generate(rand.Reader)
+	kp := kp0.(interface{ Sign(msg []byte) ([]byte, error) })
+	for _, ln := range []int{0, 1, 20, 31, 32, 33, 64, 65, 200} {
+		data := make([]byte, ln)
+		for i := range data {
+			data[i] = byte(7*i + ln)
+		}
+		sg, err := kp.Sign(data)
+		if err != nil {
+			w(pRow{K: "sig", Obj: "raw", Field: "same-key-same-data", Ok: false, N: ln})
+			continue
+		}
+		ver := func(field string, msg []byte) {
+			w(pRow{K: "sig", Obj: "raw", Field: field, Ok: pp.(interface{ Verify(msg, sig []byte) error }).Verify(msg, sg) == nil, N: ln})
+		}
+		ver("same-key-same-data", data)
+		d1 := sha256.Sum256(data)
+		d2 := sha256.Sum256(d1[:])
+		ver("digest-of-data", d1[:])
+		ver("double-digest-of-data", d2[:])
+		ver("extended-data", append(append([]byte(nil), data...), 0))
+		if ln > 0 {
+			ver("truncated-data", data[:ln-1])
+			nb := append([]byte(nil), data...)
+			nb[ln/2] ^= 0x80
+			ver("neighbour-data", nb)
+		}
+		// and the other direction: a signature over the digest must not verify for the data
+		sd, _ := kp.Sign(d1[:])
+		w(pRow{K: "sig", Obj: "raw", Field: "signature-over-digest", Ok: pp.(interface{ Verify(msg, sig []byte) error }).Verify(data, sd) == nil, N: ln})
+	}
 	// merkle root: any leaf or order change
 	leaves := []U{h256(11), h256(12), h256(13), h256(14), h256(15)}
 	root := func(l []U) U { return merkle.NewMerkleTree(l...).Root().Hash }
